@@ -242,6 +242,8 @@ def check(prop, tier):
                               {'patch': bytes.fromhex(j['patch']).decode('latin-1'), 'a_hex': j['a'], 'allowed_hex': j['allowed'], 'series_opts': '-p%d%s' % (j['strip'], ' -R' if j['rev'] else '')})
         res.cov['parts']['cli'] = {'workspaces_pushed': len(outs), 'bad': nbad}
         res.cov['traces_validated_against_impl'] += len(outs)
+        import p_cstr
+        p_cstr.run_cli(res, work)
         ws.cleanup_all()
     finally:
         shutil.rmtree(work, ignore_errors=True)
